@@ -122,15 +122,28 @@ pub trait DNSIterable {
         if !self.parsed_packet().maybe_compressed {
             return Ok(());
         }
-        let (uncompressed, new_offset_next) = {
-            let ref_offset_next = self.offset_next();
-            let compressed = self.raw_mut().packet;
-            Compress::uncompress_with_previous_offset(compressed, ref_offset_next)?
-        };
-        self.parsed_packet_mut().packet = Some(uncompressed);
-        self.set_offset_next(new_offset_next);
-        self.recompute_sections();
-        self.recompute_rr();
+        match self.offset() {
+            Some(ref_offset) => {
+                let (uncompressed, new_offset) = {
+                    let compressed = self.raw_mut().packet;
+                    Compress::uncompress_with_previous_offset(compressed, ref_offset)?
+                };
+                self.parsed_packet_mut().packet = Some(uncompressed);
+                self.set_offset(new_offset);
+                self.recompute_sections();
+                self.recompute_rr();
+            }
+            None => {
+                let (uncompressed, new_offset_next) = {
+                    let ref_offset_next = self.offset_next();
+                    let compressed = self.parsed_packet_mut().packet_mut();
+                    Compress::uncompress_with_previous_offset(compressed, ref_offset_next)?
+                };
+                self.parsed_packet_mut().packet = Some(uncompressed);
+                self.set_offset_next(new_offset_next);
+                self.recompute_sections();
+            }
+        }
         Ok(())
     }
 }
